@@ -7,6 +7,7 @@ import (
 	"fmt"
 	"go/token"
 	"sort"
+	"strings"
 
 	"golang.org/x/tools/go/ssa"
 )
@@ -70,6 +71,20 @@ func storesToField(p *Prog, typ, field string) []*StoreSite { return p.Stores(ty
 func runC05(c *Ctx) {
 	p := c.P
 	sharedDigestRule(c, p, "R7", "transports/obfs4", "transports/obfs4/framing")
+	// nonce sequencing ("a frame cannot be replayed, reordered or duplicated") rests on the nonce being
+	// prefix | the full 64-bit counter: the framing rules of C06.R3 (key-block layout, counter start,
+	// nonce layout, wrap refusal, length-field mask) are part of this property too, imported as RN3
+	defer func() {
+		sub := NewCtx(c.P, c.Prop, c.Tier)
+		c06Framing(sub, c.P)
+		for _, o := range sub.Obls {
+			o.Key = strings.Replace(o.Key, c.Prop+".R", c.Prop+".RN", 1)
+			c.Obls = append(c.Obls, o)
+		}
+		for k := range sub.fnSeen {
+			c.fnSeen[k] = true
+		}
+	}()
 	dec := p.Func("transports/obfs4/framing:(*Decoder).Decode")
 	o := c.Obl("R0", "anchors", "the frame decoder (the function calling secretbox.Open) exists")
 	if dec == nil {
